@@ -410,6 +410,12 @@ def run_objects(case, part):
                         if y >= 1000:
                             part.violation("C15/object-refused/%s" % k, "valid timestamp refused by an object", sub, "accepted", [k, r], repro_for(sub))
                         continue
+                    # writing, reading back and writing again is a fixed point (whatever form the first writing chose where the table allows alternatives)
+                    k2, r2 = lib_call(lambda: json.loads(stix2.parse(json.dumps(r), version=ver, allow_custom=False).serialize()))
+                    if k2 != "ok" or any(r2.get(pn) != r.get(pn) for pn in props):
+                        part.outcome("object-not-fixpoint")
+                        part.violation("C15/object/not-a-fixed-point/%s" % cls, "reading back what was written and writing it again gives another text", sub,
+                                       {pn: r.get(pn) for pn in props}, {pn: r2.get(pn) for pn in props} if k2 == "ok" else [k2, r2], repro_for(sub))
                     for pn, alts in props.items():
                         alts = alts if isinstance(alts, list) else [alts]
                         (p, c) = alts[0]
@@ -425,8 +431,74 @@ def run_objects(case, part):
                             part.outcome("object-match")
 
 
+FRACTION_RULE = {"any": ("any", "exact"), "exact3": ("millisecond", "exact"), "min3": ("millisecond", "min"), "second-exact": ("second", "exact")}
+
+
+def run_all_slots(case, part):
+    """EVERY timestamp slot of EVERY type of the frozen model (top level, embedded objects, extensions, container members): the maximal instance with all its
+    timestamps given the same sub-second part, as text and as datetime objects; each slot is written at the precision the frozen per-property table states"""
+    import json
+    import stix2
+    from mc.spec import gen, harness, model
+    version, key = case["version"], case["key"]
+    wrapped = loc = None
+    for k2, l2, i2, w2, loc2 in harness.all_cases(version, keys=[key]):
+        if l2 == "max":
+            wrapped, loc = w2, loc2
+            break
+    if wrapped is None:
+        return
+    tkey = model.spec(version).key_for_type(wrapped["type"])
+    slots = [(path, v, p) for path, v, p, ckey, pname in harness.typed_slots(wrapped, version, tkey) if p["kind"] == "timestamp" and isinstance(v, str)]
+    if not slots:
+        part.outcome("slots:no-timestamps")
+        return
+    for frac in ("", ".5", ".75", ".120", ".1234", ".123456", ".999999", ".000001"):
+        for form in ("text", "datetime"):
+            j = wrapped
+            insts = {}
+            for path, v, p in slots:
+                whole = tsfmt.instant_of(v[:19] + "Z") // tsfmt.PS_PER_US
+                inst = whole + (int((frac[1:] + "000000")[:6]) if frac else 0)
+                insts[path] = inst
+                if form == "text":
+                    nv = v[:19] + frac + "Z"
+                else:
+                    y, mo, d, h, mi, sec, us = tsfmt.split(inst)
+                    nv = dt.datetime(y, mo, d, h, mi, sec, us, tzinfo=pytz.utc)
+                j = gen.set_path(j, path, nv)
+            part.evaluations += 1
+            part.transitions += 1
+            sub = {"kind": "all-slots", "version": version, "key": key, "fraction": frac, "form": form}
+            try:
+                res = stix2.parse(j, allow_custom=False)
+            except Exception as e:
+                part.outcome("slots:refused(%s)" % ("C03's business" if form == "text" else "object form"))
+                continue
+            out = harness.view(res)
+            for path, v, p in slots:
+                try:
+                    got = harness.locate(out, path)
+                except (KeyError, IndexError, TypeError):
+                    continue
+                rule = FRACTION_RULE.get(p.get("fraction", "any")) or tuple(p["fraction"].split("-"))
+                alts = [rule]
+                if version == "2.0" and wrapped["type"] == "marking-definition" and path[-1:] == ("created",):
+                    alts = [("any", "exact"), ("millisecond", "exact")]       # documented choice of the library ("precision as given"), see OBJECTS above
+                exps = [tsfmt.fmt(insts[path], pp, cc) for pp, cc in alts]
+                part.state(("slot", version, key, ".".join(map(str, path)), got))
+                if got not in exps:
+                    part.outcome("slots:MISMATCH")
+                    part.violation("C15/slot/wrong-text/%s/%s-%s" % (classify(got, exps[0], 2016) if isinstance(got, str) else "missing", rule[0], rule[1]),
+                                   "a timestamp slot is not written at the precision its property requires", dict(sub, slot=".".join(map(str, path))), exps[0], got)
+                else:
+                    part.outcome("slots:match")
+
+
 def run_case(case, part):
     k = case["kind"]
+    if k == "all-slots":
+        return run_all_slots(case, part)
     if k == "sweep":
         run_sweep(case, part)
     elif k == "grid":
@@ -449,6 +521,8 @@ def run_strings_one(case, part):
 
 
 def replay(case, part):
+    if case.get("kind") == "all-slots":
+        return run_case({"kind": "all-slots", "version": case["version"], "key": case["key"]}, part)
     run_case(case, part)
 
 
@@ -473,6 +547,10 @@ def run(run):
     run.assumptions.append("oracle: integer-arithmetic formatter mc/ref/tsfmt.py (self-tested against datetime on mid-range values)")
     run.assumptions.append("zone rules (utcoffset of a zoneinfo datetime incl. fold) are the standard library's; three zones on their repeated-hour days")
     cases.append({"kind": "special"})
+    from mc.spec import gen as _gen
+    for v in ("2.0", "2.1"):
+        for k in _gen.Gen(v).top_keys():
+            cases.append({"kind": "all-slots", "version": v, "key": k})
     run.pmap(run_case, cases, order_independent=True)
     run.part.sample({"kind": "sweep", "us": 129999, "precision": "millisecond", "constraint": "exact", "expected": "2017-03-04T05:06:07.129Z"})
     run.part.sample({"kind": "grid1", "year": 9999, "tz": "-12:00", "point": [12, 31, 23, 59, 59], "us": 999999, "note": "leaves 0001-9999: either outcome"})
